@@ -30,6 +30,9 @@ RULES = {
 }
 
 RNG_CTORS = {"numpy.random.RandomState", "numpy.random.default_rng", "numpy.random.Generator", "random.Random", "numpy.random.mtrand.RandomState"}
+# scikit-learn utilities drawing from the global stream unless random_state is given:
+# name -> position of random_state among the positional arguments (None: keyword only in practice)
+SEEDABLE_UTILS = {"sample_without_replacement": 3, "shuffle": None, "resample": None, "train_test_split": None, "_random_choice_csc": 3, "random_choice_csc": 3, "randomized_svd": None, "make_blobs": None, "make_classification": None, "make_regression": None}
 GLOBAL_DRAWS = {
     "rand", "randn", "randint", "random", "random_sample", "permutation", "shuffle", "choice", "normal", "uniform", "sample",
     "ranf", "binomial", "poisson", "exponential", "beta", "gamma", "standard_normal", "bytes", "random_integers",
@@ -235,6 +238,19 @@ def check_b(ck, repo):
                 if not isinstance(c, ast.Call):
                     continue
                 d = repo.resolve_expr(fi.module, c.func) or ""
+                tail_ = d.split(".")[-1]
+                if d.startswith("sklearn.") and tail_ in SEEDABLE_UTILS:
+                    # utilities whose `random_state=None` default means the global stream
+                    pos_ = SEEDABLE_UTILS[tail_]
+                    rs_ = next((k.value for k in c.keywords if k.arg == "random_state"), None)
+                    if rs_ is None and pos_ is not None and len(c.args) > pos_:
+                        rs_ = c.args[pos_]
+                    n_draw += 1
+                    if rs_ is None or (isinstance(rs_, ast.Constant) and rs_.value is None):
+                        ck.violated("C03.b", fi, enclosing_stmt(c), f"{cname}: {d} is called without random_state on the fit path: it draws from NumPy's global stream, so the fitted model depends on the global seed even when an integer random_state is given")
+                    else:
+                        ck.holds("C03.b", fi, enclosing_stmt(c), f"{cname}: {tail_} is seeded with {src_of(rs_)}")
+                    continue
                 if d.startswith("numpy.random.") and d.split(".")[-1] in GLOBAL_DRAWS:
                     n_draw += 1
                     guarded = False
@@ -738,6 +754,7 @@ WITNESSES = [
     {"name": "ckm-unguarded-seed", "file": _KC, "rule": "C03.a", "old": "state = check_random_state(self.random_state)", "new": "state = numpy.random.RandomState(self.random_state)"},
     {"name": "permutation-unguarded-seed", "file": _TI, "rule": "C03.a", "old": "        if self.random_state is None:\n            lin = numpy.random.permutation(lin)\n        else:\n            rs = numpy.random.RandomState(self.random_state)\n            lin = rs.permutation(lin)\n", "new": "        rs = numpy.random.RandomState(self.random_state)\n        lin = rs.permutation(lin)\n"},
     {"name": "permutation-global-stream", "file": _TI, "rule": "C03.b", "old": "        if self.random_state is None:\n            lin = numpy.random.permutation(lin)\n        else:\n            rs = numpy.random.RandomState(self.random_state)\n            lin = rs.permutation(lin)\n", "new": "        lin = numpy.random.permutation(lin)\n"},
+    {"name": "kmeansl1-unseeded-utility", "file": _KL, "rule": "C03.b", "old": "        seeds = random_state.permutation(n_samples)[:k]\n", "new": "        from sklearn.utils.random import sample_without_replacement\n\n        seeds = sample_without_replacement(n_samples, k)\n"},
     {"name": "kmeansl1-global-draw", "file": _KL, "rule": "C03.b", "old": "    center_id = random_state.randint(n_samples)\n", "new": "    center_id = numpy.random.randint(n_samples)\n"},
     {"name": "piecewise-seed-truthiness", "file": _PE, "rule": "C03.b", "old": "        if nb_classes is None:\n            seeds = [None for _ in estimators]\n", "new": "        if nb_classes is None or not getattr(self, \"random_state\", None):\n            seeds = [None for _ in estimators]\n"},
     {"name": "categories-accumulate", "file": "mlinsights/mlmodel/categories_to_integers.py", "rule": "C03.d", "old": "        self._categories = {}\n        for c in columns:", "new": "        for c in columns:"},
